@@ -76,6 +76,23 @@ h :: comptime { u8.[1, 2, 3, 4, 5] };
 k : u64 : comptime { %(b)d * 3 };
 main :: () -> i32 { g[0] + i32.(h[4]) + i32.(k) }
 """),
+    # comptime results that contain addresses (rejected since fix F-C21-2; before it, the
+    # address of JIT memory was baked into the object)
+    ("str_result", """
+puts :: (s: str) -> i32 extern;
+g :: comptime { "hello %(a)d" };
+main :: () -> i32 { puts(g); %(c)d }
+"""),
+    ("struct_with_str", """
+Named :: struct { name: str, n: i32 };
+mkn :: () -> Named { Named.{ name = "abc", n = %(a)d } }
+g :: comptime { mkn() };
+main :: () -> i32 { x := g; x.n }
+"""),
+    ("slice_result", """
+h :: comptime { s : []i32 = i32.[%(a)d, %(b)d, %(c)d]; s };
+main :: () -> i32 { h[1] }
+"""),
     ("tuple_like", """
 Pair :: struct { k: u8, v: [3]u16, last: u8 };
 mk :: (n: u16) -> Pair { Pair.{ k = %(c)d, v = u16.[n, n + 1, n + 2], last = 7 } }
